@@ -140,18 +140,36 @@ def run_unit(binary, unit, tier, seed, shard, nshards, outdir, extra_env=None):
 
 
 def wait_all(procs):
-    results = []
-    for p in procs:
-        info = p._verif
-        try:
-            rc = p.wait(timeout=max(1, info["timeout"] + 60 - (time.time() - info["t0"])))
-        except subprocess.TimeoutExpired:
-            p.kill()
-            rc = -9
-        info["log"].close()
-        text = open(os.path.join(info["outdir"], "log.txt"), errors="replace").read()
-        results.append((rc, text, info))
-    return results
+    """Waits for every unit. Once one unit has reported a violation the others get
+    20 more seconds and are then stopped (a deadlocked or crashed library can keep
+    the other units busy until their deadline; the verdict is already decided)."""
+    results = {}
+    fail_seen = None
+    while len(results) < len(procs):
+        for i, p in enumerate(procs):
+            if i in results:
+                continue
+            info = p._verif
+            rc = p.poll()
+            if rc is None:
+                if time.time() - info["t0"] > info["timeout"] + 60:
+                    p.kill()
+                    p.wait()
+                    rc = -9
+                elif fail_seen is not None and time.time() - fail_seen > 20:
+                    p.kill()
+                    p.wait()
+                    rc = -9
+                    info["stopped_after_violation"] = True
+                else:
+                    continue
+            info["log"].close()
+            text = open(os.path.join(info["outdir"], "log.txt"), errors="replace").read()
+            results[i] = (rc, text, info)
+            if fail_seen is None and classify(rc, text, info)[0] == "fail":
+                fail_seen = time.time()
+        time.sleep(0.05)
+    return [results[i] for i in range(len(procs))]
 
 
 PASS_RE = re.compile(r"\[rapid\] OK, passed (\d+) tests")
@@ -162,6 +180,8 @@ FUZZ_RE = re.compile(r"execs: (\d+) .*?\(total: (\d+)\)")
 
 def classify(rc, text, info):
     """-> ('pass'|'fail'|'inconclusive', reason)"""
+    if info.get("stopped_after_violation"):
+        return "pass", "stopped after a violation in another unit"
     if info["unit"].get("fuzz"):
         if rc == 0:
             return "pass", ""
